@@ -85,3 +85,17 @@ func (r *Rand) Amount(around []*big.Int, neg bool) *big.Int {
 	}
 	return v
 }
+
+// BigBelow returns a value in [0, n) (n > 0).
+func (r *Rand) BigBelow(n *big.Int) *big.Int {
+	if n.Sign() <= 0 {
+		return new(big.Int)
+	}
+	words := (n.BitLen() + 63) / 64
+	v := new(big.Int)
+	for i := 0; i < words+1; i++ {
+		v.Lsh(v, 64)
+		v.Or(v, new(big.Int).SetUint64(r.U64()))
+	}
+	return v.Mod(v, n)
+}
